@@ -523,7 +523,43 @@ func maybeNilError(ret *ssa.Return) bool {
 		_ = mi
 		return false
 	}
+	// a wrapping helper of the module that never returns nil (every return of it is a freshly made error)
+	if call, ok := v.(*ssa.Call); ok {
+		if alwaysMakesError(call, 0) {
+			return false
+		}
+	}
 	return true
+}
+
+// alwaysMakesError: the call is fmt.Errorf / errors.New, or a module function every return of which is such a call
+// or a concrete error value (depth-bounded).
+func alwaysMakesError(call *ssa.Call, depth int) bool {
+	n, callee := calleeOf(call)
+	if n == "fmt.Errorf" || n == "errors.New" {
+		return true
+	}
+	if callee == nil || !inModule(callee) || len(callee.Blocks) == 0 || depth > 2 {
+		return false
+	}
+	any := false
+	for _, b := range callee.Blocks {
+		ret, ok := b.Instrs[len(b.Instrs)-1].(*ssa.Return)
+		if !ok || len(ret.Results) == 0 {
+			continue
+		}
+		any = true
+		switch r := retVal(ret, len(ret.Results)-1).(type) {
+		case *ssa.MakeInterface:
+		case *ssa.Call:
+			if !alwaysMakesError(r, depth+1) {
+				return false
+			}
+		default:
+			return false
+		}
+	}
+	return any
 }
 
 // checkMountBuilder: flag sets produced by the builder methods.
@@ -622,14 +658,24 @@ func checkMountBuilder(c *Check) {
 		okF := false
 		for _, b := range fn.Blocks {
 			for _, in := range b.Instrs {
-				// the append that keeps an entry
+				// the instruction that keeps an entry: an append, or a store into an element of the list (in-place
+				// compaction)
+				keep := false
 				if call, ok := in.(*ssa.Call); ok {
 					if bi, ok := call.Call.Value.(*ssa.Builtin); ok && bi.Name() == "append" {
-						g := controlDeps(fn).guardOf(b)
-						// kept unless (IsBindMount ∧ IsNotExist): guard must be ¬bind ∨ ¬notexist (modulo loop)
-						s := g.String()
-						okF = strings.Contains(s, "IsBindMount") && strings.Contains(s, "IsNotExist")
+						keep = true
 					}
+				}
+				if st, ok := in.(*ssa.Store); ok {
+					if ia, ok := st.Addr.(*ssa.IndexAddr); ok && strings.HasSuffix(describe(ia.X), ".Mounts") {
+						keep = true
+					}
+				}
+				if keep {
+					g := controlDeps(fn).guardOf(b)
+					// kept unless (IsBindMount ∧ IsNotExist): guard must be ¬bind ∨ ¬notexist (modulo loop)
+					s := g.String()
+					okF = strings.Contains(s, "IsBindMount") && strings.Contains(s, "IsNotExist")
 				}
 			}
 		}
